@@ -315,7 +315,12 @@ int main(int argc, char **argv) {
       RandomGenerator g((int_fast32_t)r.below(1ull << 31));
       const uint64_t used = r.below(60);
       for (uint64_t k = 0; k < used; ++k) g.get_uniform_random_double();
-      const uint64_t s2 = (rep % 9 == 0) ? 0 : r.below(1ull << 31);
+      // the new seed: random, 0 (documented to mean 1), or the very seed the generator already carries (a re-seed must
+      // rewind to the start of that stream whatever the generator did before; also set_seed(0) on a seed-1 generator)
+      const uint64_t s1 = (rep % 7 == 3) ? 1 : r.below(1ull << 31);
+      if (rep % 7 == 3 || rep % 5 == 2) { g.set_seed((int_fast32_t)s1); for (uint64_t k = 0; k < used; ++k) g.get_uniform_random_double(); }
+      const uint64_t s2 = (rep % 7 == 3) ? 0 : (rep % 5 == 2) ? s1 : (rep % 9 == 0) ? 0 : r.below(1ull << 31);
+      if (rep % 7 == 3 || rep % 5 == 2) st.inc("reseeded_with_the_seed_already_carried");
       g.set_seed((int_fast32_t)s2);
       gsl_rng_set(g_gsl, (unsigned long)(s2 == 0 ? 1 : s2));
       for (int k = 0; k < 40; ++k) {
